@@ -360,18 +360,24 @@ def run(ctx):
     # the global profiles (TMS hides level 0) and the sqrt2 variant (every second level is public), on the real
     # default bboxes: lattice unit = half extent / 5120, 4x4 pixel tiles
     B = 5120
-    for label, base, srs, code, nlev, sqrt2, half, latlon, mpu in (
-            ('global-mercator', 'GLOBAL_MERCATOR', 'EPSG:900913', 'EPSG900913', 5, False, 20037508.342789244, False, 1.0),
-            ('global-mercator-sqrt2', 'GLOBAL_MERCATOR', 'EPSG:900913', 'EPSG900913', 7, True, 20037508.342789244, False, 1.0),
-            ('global-geodetic', 'GLOBAL_GEODETIC', 'EPSG:4326', 'EPSG4326', 4, False, 180.0, True, 111319.4907932736)):
+    for label, base, srs, code, nlev, sqrt2, half, latlon, mpu, first in (
+            ('global-mercator', 'GLOBAL_MERCATOR', 'EPSG:900913', 'EPSG900913', 5, False, 20037508.342789244, False, 1.0, 0),
+            ('global-mercator-sqrt2', 'GLOBAL_MERCATOR', 'EPSG:900913', 'EPSG900913', 7, True, 20037508.342789244, False, 1.0, 0),
+            ('global-geodetic', 'GLOBAL_GEODETIC', 'EPSG:4326', 'EPSG4326', 4, False, 180.0, True, 111319.4907932736, 0),
+            # the same profiles with a resolution list that starts one level further down (min_res): level 0 is not the
+            # single world tile, the TMS profile hides it all the same
+            ('global-geodetic-minres', 'GLOBAL_GEODETIC', 'EPSG:4326', 'EPSG4326', 3, False, 180.0, True, 111319.4907932736, 1),
+            ('global-mercator-minres', 'GLOBAL_MERCATOR', 'EPSG:900913', 'EPSG900913', 3, False, 20037508.342789244, False, 1.0, 1)):
         geod = base == 'GLOBAL_GEODETIC'
         bbox = [-B, -B // 2, B, B // 2] if geod else [-B, -B, B, B]
         res0 = 2 * B / 4.0
-        res = [res0 / (math.sqrt(2) ** k if sqrt2 else 2 ** k) for k in range(nlev)]
+        res = [res0 / (math.sqrt(2) ** (k + first) if sqrt2 else 2 ** (k + first)) for k in range(nlev)]
         g = dict(ul=False, bbox=bbox, tw=4, th=4, res=res, sn=L.SN, sd=L.SD, ms=L.MS, thr=[], sf=True, so=sqrt2)
         gc = {'base': base, 'tile_size': [4, 4], 'num_levels': nlev}
         if sqrt2:
             gc['res_factor'] = 'sqrt2'
+        if first:
+            gc['min_res'] = res[0] * half / B
         app = L.LatticeApp(g, srs=srs, scale=half / B, grid_conf=gc)
         try:
             exercise(ctx, label, label, g, app, None, thorough, code=code, latlon=latlon, mpu=mpu, srs=srs)
